@@ -20,8 +20,8 @@ from .. import core, tlc, validate
 
 NAMES = {"a": "a", "b": "b é.dir", "s/c": "s ü/c c", "s/t/d": "s ü/t/.d"}
 REV = {v: k for k, v in NAMES.items()}
-CONTENTS = {"c0": b"", "c1": b"line one\nline two\n", "c2": b"crlf one\r\ncrlf two\r\n"}
-assert len(CONTENTS["c1"]) == 18 and len(CONTENTS["c2"]) == 20
+CONTENTS = {"c0": b"", "c1": b"line one\nline two\n", "c2": b"crlf one\r\ncrlf two\r\n", "c3": b"LINE ONE\nline two\n"}
+assert len(CONTENTS["c1"]) == 18 and len(CONTENTS["c2"]) == 20 and len(CONTENTS["c3"]) == 18
 REVD = {hashlib.md5(b).hexdigest(): c for c, b in CONTENTS.items()}
 
 
@@ -82,6 +82,7 @@ def run_case(case):
                 os.makedirs(os.path.dirname(fp), exist_ok=True)
                 with open(fp, "wb") as fh:
                     fh.write(CONTENTS[c])
+                os.utime(fp, ns=(1_680_000_000_123_456_789, 1_680_000_000_123_456_789))   # one mtime for all (an unpacked archive)
             os.makedirs(os.path.join(srcd, "empty dir", "nested empty"), exist_ok=True)  # not tracked
         cfg = {"type": [case["link"]]}
         if case["state"]:
@@ -144,7 +145,33 @@ def run_case(case):
             except Exception as exc:  # noqa: BLE001 - the library's failure is the observation (the walk tells what is there)
                 raised["lazy"] = type(exc).__name__
             fresh["lazy"] = walk(os.path.join(f3, "data")) if os.path.isdir(os.path.join(f3, "data")) else ({}, [])
-        return {"src": case["src"], "staged": {"listing": listing, "nfiles": int(nfiles or 0), "size": int(size or 0)},
+        second = None
+        swap = case.get("swap")
+        if swap and not single:
+            # ---- second round (Restage): two files of equal size swapped by renaming, staged again into the same store
+            # with the same state, checked out into another fresh location
+            pa, pb = (os.path.join(srcd, *NAMES[x].split("/")) for x in swap)
+            tmpn = pa + ".swap"
+            os.rename(pa, tmpn)
+            os.rename(pb, pa)
+            os.rename(tmpn, pb)
+            src2 = dict(case["src"])
+            src2[swap[0]], src2[swap[1]] = case["src"][swap[1]], case["src"][swap[0]]
+            staging2, meta2, obj2 = build(odb, spell(srcd), fs, "md5")
+            transfer(staging2, odb, {obj2.hash_info}, shallow=False)
+            listing2 = {REV.get("/".join(k), "?" + "/".join(k)): REVD.get(hi.value, "other") for k, _m, hi in obj2}
+            reloaded2 = {REV.get("/".join(k), "?" + "/".join(k)): REVD.get(hi.value, "other") for k, _m, hi in Tree.load(odb, obj2.hash_info)}
+            f4 = os.path.join(root, "fresh-object-2")
+            raised2 = []
+            try:
+                checkout(spell(f4), fs, Tree.load(odb, obj2.hash_info), odb, state=state)
+            except Exception as exc:  # noqa: BLE001
+                raised2.append("object:" + type(exc).__name__)
+            w4 = walk(f4) if os.path.isdir(f4) else ({}, [])
+            second = {"src": src2, "staged": {"listing": listing2, "nfiles": int(meta2.nfiles or 0), "size": int(meta2.size or 0)},
+                      "reloaded": reloaded2, "fresh": {"object": w4[0]}, "extra": {"object": w4[1]}, "raised": raised2,
+                      "case": {**case, "round": 2}}
+        return {"second": second, "src": case["src"], "staged": {"listing": listing, "nfiles": int(nfiles or 0), "size": int(size or 0)},
                 "reloaded": reloaded, "fresh": {r: v[0] for r, v in fresh.items()},
                 "extra": {r: v[1] for r, v in fresh.items()}, "raised": [f"{r}:{t}" for r, t in sorted(raised.items())],
                 "case": case}
@@ -177,7 +204,7 @@ def check(run: core.Run, replay=None):
         cases = [replay["witness"]["case"]]
     else:
         trees = []
-        for combo in itertools.product(["-", "c0", "c1", "c2"], repeat=4):
+        for combo in itertools.product(["-", "c0", "c1", "c2"], repeat=4):   # (c3 appears in the swap cases below)
             t = {p: c for p, c in zip(NAMES, combo) if c != "-"}
             if t:
                 trees.append(t)
@@ -187,6 +214,15 @@ def check(run: core.Run, replay=None):
             for j, (cls, link, st) in enumerate(cfgs if not quick else [cfgs[(i + k) % len(cfgs)] for k in range(3)]):
                 cases.append({"id": len(cases), "src": t, "cls": cls, "link": link, "state": st,
                               "spelling": ("plain", "slash", "rel")[(i + j) % 3]})
+        # trees holding two files of equal size and different content: a second round after swapping them
+        for a, b in itertools.permutations(NAMES, 2):
+            for rest in ("-", "c2"):
+                t = {a: "c1", b: "c3"}
+                for o in NAMES:
+                    if o not in t and rest != "-":
+                        t[o] = rest
+                for (cls, link, st) in cfgs:
+                    cases.append({"id": len(cases), "src": t, "cls": cls, "link": link, "state": st, "spelling": "plain", "swap": [a, b]})
         for c in CONTENTS:
             for (cls, link, st) in cfgs:
                 cases.append({"id": len(cases), "src": {"a": c}, "single": True, "cls": cls, "link": link, "state": st,
@@ -196,6 +232,7 @@ def check(run: core.Run, replay=None):
     errs = [r for r in recs if "harness_error" in r]
     if errs:
         raise tlc.MachineryError("harness error:\n" + errs[0]["harness_error"] + json.dumps(errs[0]["case"]))
+    recs = recs + [r["second"] for r in recs if r.get("second")]      # the second round of a case is a record of its own
     doc = [{k: r[k] for k in ("src", "staged", "reloaded", "fresh", "extra", "raised")} for r in recs]
     printed, stats = validate.validate_traces("RoundTripTrace", "RoundTripTrace.cfg", doc, shards=8)
     run.traces += len(recs)
